@@ -19,8 +19,15 @@
     `ext_bpoly_roundtrip` — bivariate polynomials, every monomial order, with or without ideal
     (exponents `< 2^64`, as `BValid` demands).
   * `upoly_additive_generic`, `prime_/bin_/ext_upoly_additive` — univariate additivity.
-  Still only stated (`C15.C15_full`, and `C15Full_remaining` below): the notational variations,
-  bivariate additivity.
+  * `bpoly_additive_generic`, `prime_/bin_/ext_bpoly_additive` — bivariate additivity (in a
+    quotient ring under the hypothesis `hsum`).
+  * `upoly_notation_generic`, `prime_/bin_/ext_upoly_notation` — `UNotations`: univariate round
+    trip in every notation.
+  * `C15_full_literal_false` — `C15_full` read literally is FALSE in the model (no bound on the
+    number of coefficients: `X^(2^63)` prints an exponent `strconv.ParseInt` rejects); the bounded
+    statement is assembled as `C15_full_bounded_partial` in `Props/C15FullDefine.lean`.
+  Still only stated (`C15Full_remaining` below): the bivariate notational variations, bivariate
+  additivity in quotient rings without `hsum`.
 -/
 import Algobra.Props.C15
 import Algobra.Props.C03
@@ -29,6 +36,8 @@ import Algobra.Proofs.ParseRTCoef
 import Algobra.Proofs.ParseRTBPoly
 import Algobra.Proofs.BPolyPerm
 import Algobra.Proofs.ParseRTAdd
+import Algobra.Proofs.ParseRTBAdd
+import Algobra.Proofs.ParseRTNPoly
 import Algobra.Proofs.ExtField
 
 namespace Algobra.C15
@@ -786,7 +795,505 @@ theorem ext_upoly_additive {K : Type} [Field K] (M : ExtField.Modulus h32 n g) (
 
 end ExtAdd
 
-/-! ### 8. what remains of `C15_full` -/
+/-! ### 8. additivity (bivariate)
+
+  Same accumulation argument (`ParseRT.bpoly_parse_add`): the parsed polynomial `b` denotes the sum;
+  cancelled exponent pairs are dropped by `ofMap`.  Without ideal, `b` is returned and is `Equal`
+  to `add f₁ f₂`.  In a quotient ring the parser returns `reduceIn R b`, and `b` is a permutation
+  of `add f₁ f₂` (`BPoly.reduceIn_perm`); the statement then needs that the model's reduction
+  leaves the sum `add f₁ f₂` alone up to `Equal` — hypothesis `hsum`.  (It does whenever no
+  exponent pair of the sum is divisible by a leading exponent of the ideal and the division fuel
+  `BPoly.divFuel` of the model suffices; this is not derived here from `BValid f₁`, `BValid f₂`.) -/
+
+theorem bpoly_additive_generic {α K : Type} [Field K] {F : FOps α} (L : Lawful F K)
+    (H : CoefRT F L.valid) (hz1 : F.toStr F.zero = "0") (hz2 : ¬ F.nTerms F.zero > 1)
+    (hown : ∀ w, F.ownVar = some w → AdmissibleName w)
+    {x y : String} (hx : AdmissibleName x) (hy : AdmissibleName y) (hxy : Unconfusable x y)
+    (hun : ∀ w, F.ownVar = some w → Unconfusable x w ∧ Unconfusable y w)
+    (ord : Order) (ideal : Option (List (BPoly α))) {f₁ f₂ : BPoly α}
+    (hf₁ : BPoly.WF L f₁) (hf₂ : BPoly.WF L f₂) (hb₁ : BPoly.Bounded f₁) (hb₂ : BPoly.Bounded f₂)
+    (hsum : ∀ gs, ideal = some gs → ∃ h,
+      BPoly.reduceIn { F := F, ord := ord, varNames := (x, y), ideal := ideal }
+        (BPoly.add F f₁ f₂) = some h ∧ BPoly.equal F h (BPoly.add F f₁ f₂) = true) :
+    ∃ g, BPoly.parse { F := F, ord := ord, varNames := (x, y), ideal := ideal }
+        (BPoly.toStr { F := F, ord := ord, varNames := (x, y), ideal := ideal } f₁ ++ " + " ++
+          BPoly.toStr { F := F, ord := ord, varNames := (x, y), ideal := ideal } f₂) = .ok (some g) ∧
+      BPoly.equal F g (BPoly.add F f₁ f₂) = true := by
+  have hdir : BPoly.directOK { F := F, ord := ord, varNames := (x, y), ideal := ideal } = true := by
+    unfold BPoly.directOK
+    simp only [(admissible_iff_simple x).1 hx, (admissible_iff_simple y).1 hy, Bool.and_self,
+      Bool.true_and]
+    cases hw : F.ownVar with
+    | none => rfl
+    | some w =>
+      simp only [(admissible_iff_simple w).1 (hown w hw), unconf_of_unconfusable (hun w hw).1,
+        unconf_of_unconfusable (hun w hw).2, Bool.and_self]
+  obtain ⟨b, hb, hbp, hparse⟩ := bpoly_parse_add
+    { F := F, ord := ord, varNames := (x, y), ideal := ideal } L H hz1 hz2
+    (bnames_of hx hy hxy hun) hdir hf₁ hf₂ hb₁ hb₂
+  have hsw := BPoly.WF_add L hf₁ hf₂.cv
+  have hsp := BPoly.toMv_add L hf₁ hf₂.cv
+  rw [hparse]
+  cases hid : ideal with
+  | none =>
+    refine ⟨b, by simp [BPoly.reduceIn], ?_⟩
+    exact (BPoly.equal_iff L hb hsw).2 (by rw [hbp, hsp])
+  | some gs =>
+    subst hid
+    obtain ⟨h, h1, h2⟩ := hsum gs rfl
+    have hperm : b.Perm (BPoly.add F f₁ f₂) := BPoly.perm_of_toMv_eq L hb hsw (by rw [hbp, hsp])
+    exact ⟨h, by rw [BPoly.reduceIn_perm _ (gs := gs) rfl hperm hb.1, h1], h2⟩
+
+/-- bivariate additivity over a prime field: every order; without ideal unconditionally, with an
+    ideal provided the model's reduction leaves the sum alone (`hsum`, see above) -/
+theorem prime_bpoly_additive {p : Nat} (hp : p.Prime) (h32 : p - 1 < 2 ^ 32) {x y : String}
+    (hx : AdmissibleName x) (hy : AdmissibleName y) (hxy : Unconfusable x y) (ord : Order)
+    (ideal : Option (List (BPoly Nat))) {f₁ f₂ : BPoly Nat}
+    (hf₁ : BValid (primeSpec p) { F := primeOps p, ord := ord, varNames := (x, y), ideal := ideal } f₁)
+    (hf₂ : BValid (primeSpec p) { F := primeOps p, ord := ord, varNames := (x, y), ideal := ideal } f₂)
+    (hsum : ∀ gs, ideal = some gs → ∃ h,
+      BPoly.reduceIn { F := primeOps p, ord := ord, varNames := (x, y), ideal := ideal }
+        (BPoly.add (primeOps p) f₁ f₂) = some h ∧
+      BPoly.equal (primeOps p) h (BPoly.add (primeOps p) f₁ f₂) = true) :
+    ∃ g, BPoly.parse { F := primeOps p, ord := ord, varNames := (x, y), ideal := ideal }
+        (BPoly.toStr { F := primeOps p, ord := ord, varNames := (x, y), ideal := ideal } f₁ ++ " + " ++
+          BPoly.toStr { F := primeOps p, ord := ord, varNames := (x, y), ideal := ideal } f₂) =
+            .ok (some g) ∧
+      BPoly.equal (primeOps p) g (BPoly.add (primeOps p) f₁ f₂) = true := by
+  have := Fact.mk hp
+  have hwf : ∀ {f : BPoly Nat}, BValid (primeSpec p)
+      { F := primeOps p, ord := ord, varNames := (x, y), ideal := ideal } f →
+      BPoly.WF (primeLawfulFact p h32) f := fun hf =>
+    ⟨hf.1, fun t ht => ⟨(hf.2.1 t ht).1,
+      ((primeLawfulFact p h32).isZero_false_iff _ (hf.2.1 t ht).1).1 (hf.2.1 t ht).2.1⟩⟩
+  exact bpoly_additive_generic (primeLawfulFact p h32) (prime_coefRT hp.two_le (by omega))
+    (by show toString (0 : Nat) = "0"; decide) (by show ¬ (1 > 1); omega)
+    (fun w hw => by cases hw) hx hy hxy (fun w hw => by cases hw) ord ideal (hwf hf₁) (hwf hf₂)
+    (fun t ht => (hf₁.2.1 t ht).2.2) (fun t ht => (hf₂.2.1 t ht).2.2) hsum
+
+/-- bivariate additivity over a binary field -/
+theorem bin_bpoly_additive {K : Type} [Field K] {n m : Nat} {w : String}
+    (L : Lawful (binOps n m w) K) (hL : ∀ a, L.valid a ↔ a < 2 ^ n) (hw : AdmissibleName w)
+    (hn : n < 64) {x y : String} (hx : AdmissibleName x) (hy : AdmissibleName y)
+    (hxy : Unconfusable x y) (hxw : Unconfusable x w) (hyw : Unconfusable y w) (ord : Order)
+    (ideal : Option (List (BPoly Nat))) {f₁ f₂ : BPoly Nat}
+    (hf₁ : BValid (binSpec n m w) { F := binOps n m w, ord := ord, varNames := (x, y), ideal := ideal } f₁)
+    (hf₂ : BValid (binSpec n m w) { F := binOps n m w, ord := ord, varNames := (x, y), ideal := ideal } f₂)
+    (hsum : ∀ gs, ideal = some gs → ∃ h,
+      BPoly.reduceIn { F := binOps n m w, ord := ord, varNames := (x, y), ideal := ideal }
+        (BPoly.add (binOps n m w) f₁ f₂) = some h ∧
+      BPoly.equal (binOps n m w) h (BPoly.add (binOps n m w) f₁ f₂) = true) :
+    ∃ g, BPoly.parse { F := binOps n m w, ord := ord, varNames := (x, y), ideal := ideal }
+        (BPoly.toStr { F := binOps n m w, ord := ord, varNames := (x, y), ideal := ideal } f₁ ++ " + " ++
+          BPoly.toStr { F := binOps n m w, ord := ord, varNames := (x, y), ideal := ideal } f₂) =
+            .ok (some g) ∧
+      BPoly.equal (binOps n m w) g (BPoly.add (binOps n m w) f₁ f₂) = true := by
+  have hwf : ∀ {f : BPoly Nat}, BValid (binSpec n m w)
+      { F := binOps n m w, ord := ord, varNames := (x, y), ideal := ideal } f → BPoly.WF L f :=
+    fun hf => ⟨hf.1, fun t ht => ⟨(hL _).2 (hf.2.1 t ht).1,
+      (L.isZero_false_iff _ ((hL _).2 (hf.2.1 t ht).1)).1 (hf.2.1 t ht).2.1⟩⟩
+  have hown : ∀ w', (binOps n m w).ownVar = some w' → w' = w := by
+    intro w' h; injection h with e; exact e.symm
+  exact bpoly_additive_generic L ((bin_coefRT hw m hn).mono fun a ha => (hL a).1 ha) rfl
+    (by show ¬ popCount 0 > 1; rw [ParseRT.popCount_zero]; omega)
+    (fun w' h => by rw [hown w' h]; exact hw) hx hy hxy
+    (fun w' h => by rw [hown w' h]; exact ⟨hxw, hyw⟩) ord ideal (hwf hf₁) (hwf hf₂)
+    (fun t ht => (hf₁.2.1 t ht).2.2) (fun t ht => (hf₂.2.1 t ht).2.2) hsum
+
+section ExtBAdd
+variable {p : Nat} [Fact p.Prime] {h32 : p - 1 < 2 ^ 32} {n : Nat} {g : List Nat}
+
+/-- bivariate additivity over an extension field -/
+theorem ext_bpoly_additive {K : Type} [Field K] (M : ExtField.Modulus h32 n g) (hn : n ≤ 2 ^ 63)
+    (L : Lawful (extOps p n g) K) (hL : ∀ a, L.valid a ↔ ExtField.Valid h32 n a)
+    {x y : String} (hx : AdmissibleName x) (hy : AdmissibleName y) (hxy : Unconfusable x y)
+    (hxw : Unconfusable x "a") (hyw : Unconfusable y "a") (ord : Order)
+    (ideal : Option (List (BPoly (UPoly Nat)))) {f₁ f₂ : BPoly (UPoly Nat)}
+    (hf₁ : BValid (extSpec p n g) { F := extOps p n g, ord := ord, varNames := (x, y), ideal := ideal } f₁)
+    (hf₂ : BValid (extSpec p n g) { F := extOps p n g, ord := ord, varNames := (x, y), ideal := ideal } f₂)
+    (hsum : ∀ gs, ideal = some gs → ∃ h,
+      BPoly.reduceIn { F := extOps p n g, ord := ord, varNames := (x, y), ideal := ideal }
+        (BPoly.add (extOps p n g) f₁ f₂) = some h ∧
+      BPoly.equal (extOps p n g) h (BPoly.add (extOps p n g) f₁ f₂) = true) :
+    ∃ g', BPoly.parse { F := extOps p n g, ord := ord, varNames := (x, y), ideal := ideal }
+        (BPoly.toStr { F := extOps p n g, ord := ord, varNames := (x, y), ideal := ideal } f₁ ++ " + " ++
+          BPoly.toStr { F := extOps p n g, ord := ord, varNames := (x, y), ideal := ideal } f₂) =
+            .ok (some g') ∧
+      BPoly.equal (extOps p n g) g' (BPoly.add (extOps p n g) f₁ f₂) = true := by
+  have hv : ∀ {f : BPoly (UPoly Nat)}, BValid (extSpec p n g)
+      { F := extOps p n g, ord := ord, varNames := (x, y), ideal := ideal } f →
+      ∀ t ∈ f, L.valid t.2 := fun hf t ht =>
+    (hL _).2 (by have := (hf.2.1 t ht).1; exact ⟨⟨this.2.2, this.1⟩, this.2.1⟩)
+  have hwf : ∀ {f : BPoly (UPoly Nat)}, BValid (extSpec p n g)
+      { F := extOps p n g, ord := ord, varNames := (x, y), ideal := ideal } f → BPoly.WF L f :=
+    fun hf => ⟨hf.1, fun t ht => ⟨hv hf t ht,
+      (L.isZero_false_iff _ (hv hf t ht)).1 (hf.2.1 t ht).2.1⟩⟩
+  have hown : ∀ w', (extOps p n g).ownVar = some w' → w' = "a" := by
+    intro w' h; injection h with e; exact e.symm
+  exact bpoly_additive_generic L ((ext_coefRT M hn).mono fun a ha => (hL a).1 ha)
+    (by show UPoly.toStr (primeOps p) "a" [0] = "0"; rfl)
+    (by show ¬ UPoly.nTerms (primeOps p) [0] > 1; simp [UPoly.nTerms, UPoly.isZero, primeOps])
+    (fun w' h => by rw [hown w' h]; exact ⟨'a', [], by decide, by decide, by decide⟩) hx hy hxy
+    (fun w' h => by rw [hown w' h]; exact ⟨hxw, hyw⟩) ord ideal (hwf hf₁) (hwf hf₂)
+    (fun t ht => (hf₁.2.1 t ht).2.2) (fun t ht => (hf₂.2.1 t ht).2.2) hsum
+
+end ExtBAdd
+
+-- non-vacuity: (3X^2Y + X + 5) + (4X^2Y + 2Y) = X + 2Y + 5 in F_7[X,Y]: X^2Y cancels
+example : ∃ g, BPoly.parse { F := primeOps 7, ord := ⟨.lex, true⟩, varNames := ("X", "Y"), ideal := none }
+      "3X^2Y + X + 5 + 4X^2Y + 2Y" = .ok (some g) ∧
+    BPoly.equal (primeOps 7) g [((0, 0), 5), ((1, 0), 1), ((0, 1), 2)] = true := by
+  have h := prime_bpoly_additive (p := 7) (by norm_num) (by norm_num) (x := "X") (y := "Y")
+    ⟨'X', [], by decide, by decide, by decide⟩ ⟨'Y', [], by decide, by decide, by decide⟩
+    (by unfold Unconfusable; decide) ⟨.lex, true⟩ none
+    (f₁ := [((2, 1), 3), ((0, 0), 5), ((1, 0), 1)]) (f₂ := [((2, 1), 4), ((0, 1), 2)])
+    ⟨by decide, by
+      intro t ht
+      have : t = ((2, 1), 3) ∨ t = ((0, 0), 5) ∨ t = ((1, 0), 1) := by simpa using ht
+      rcases this with rfl | rfl | rfl <;>
+        exact ⟨by show (_ : Nat) < 7; decide, by decide, by decide, by decide⟩, rfl⟩
+    ⟨by decide, by
+      intro t ht
+      have : t = ((2, 1), 4) ∨ t = ((0, 1), 2) := by simpa using ht
+      rcases this with rfl | rfl <;>
+        exact ⟨by show (_ : Nat) < 7; decide, by decide, by decide, by decide⟩, rfl⟩
+    (fun gs h => by cases h)
+  have e1 : BPoly.toStr { F := primeOps 7, ord := ⟨.lex, true⟩, varNames := ("X", "Y"), ideal := none } [((2, 1), 3), ((0, 0), 5), ((1, 0), 1)] ++ " + " ++ BPoly.toStr { F := primeOps 7, ord := ⟨.lex, true⟩, varNames := ("X", "Y"), ideal := none } [((2, 1), 4), ((0, 1), 2)] = "3X^2Y + X + 5 + 4X^2Y + 2Y" := by
+    decide +kernel
+  have e2 : BPoly.add (primeOps 7) [((2, 1), 3), ((0, 0), 5), ((1, 0), 1)] [((2, 1), 4), ((0, 1), 2)] =
+      [((0, 0), 5), ((1, 0), 1), ((0, 1), 2)] := by decide +kernel
+  rwa [e1, e2] at h
+
+/-! ### 9. the notational freedoms (univariate)
+
+  `ParseRT.tokU_termN`: the tokeniser reads a term written with optional `*`, optional `^`, any
+  blanks around `+` and any letter case of the variable exactly as the default form. -/
+
+def swapc (c : Char) : Char := if c.isUpper then c.toLower else c.toUpper
+
+theorem swapCase_toList (s : String) : (swapCase s).toList = s.toList.map swapc := by
+  unfold swapCase; rw [String.toList_ofList]; rfl
+
+theorem swapc_facts {c : Char} (h : c.isAlphanum = true) :
+    Regex.lower (swapc c) = Regex.lower c ∧ (swapc c).isAlphanum = true ∧
+      (c.isAlpha = true → (swapc c).isAlpha = true) :=
+  alnum_forall (P := fun c => Regex.lower (swapc c) = Regex.lower c ∧ (swapc c).isAlphanum = true ∧
+    (c.isAlpha = true → (swapc c).isAlpha = true)) (by decide) h
+
+/-- the variable text of a notation -/
+def varN (N : Notation) (v : String) : String := if N.swapCase then swapCase v else v
+
+theorem varN_facts (N : Notation) {v : String} (hv : AdmissibleName v) :
+    (varN N v).toList.map Regex.lower = v.toList.map Regex.lower ∧ AdmissibleName (varN N v) := by
+  unfold varN
+  cases N.swapCase with
+  | false => exact ⟨rfl, hv⟩
+  | true =>
+    obtain ⟨c, t, h1, h2, h3⟩ := hv
+    have hall : ∀ x ∈ v.toList, x.isAlphanum = true := by
+      intro x hx; rw [h1] at hx
+      rcases List.mem_cons.1 hx with rfl | hx
+      · exact isAlpha_isAlphanum h2
+      · exact h3 x hx
+    simp only [if_true]
+    refine ⟨?_, swapc c, t.map swapc, by rw [swapCase_toList, h1]; rfl,
+      (swapc_facts (isAlpha_isAlphanum h2)).2.2 h2, ?_⟩
+    · rw [swapCase_toList, List.map_map]
+      apply List.map_congr_left
+      intro x hx
+      exact (swapc_facts (hall x hx)).1
+    · intro x hx
+      obtain ⟨y, hy, rfl⟩ := List.mem_map.1 hx
+      exact (swapc_facts (h3 y hy)).2.1
+
+theorem unconfusable_varN (N : Notation) {v w : String} (hv : AdmissibleName v)
+    (h : Unconfusable v w) : Unconfusable (varN N v) w := by
+  have e : UPoly.strLower (varN N v) = UPoly.strLower v := by
+    unfold UPoly.strLower; rw [(varN_facts N hv).1]
+  unfold Unconfusable at h ⊢
+  rw [e]; exact h
+
+/-- the printed form in a notation, as a joined list of terms -/
+theorem uToStrN_toList {α : Type} (N : Notation) {k l : Nat}
+    (hN : N.sep = String.ofList (List.replicate k ' ' ++ '+' :: List.replicate l ' '))
+    (F : FOps α) (hz1 : F.toStr F.zero = "0") (hz2 : ¬ F.nTerms F.zero > 1) (v : String)
+    (f : UPoly α) :
+    (uToStrN N F v f).toList = joinS (sepN k l)
+      ((termsOf F f).map fun t => termCharsN F (varN N v) N.caret N.star t.1 t.2) := by
+  unfold uToStrN termsOf
+  by_cases hz : UPoly.isZero F f = true
+  · simp only [hz, if_true, List.map_cons, List.map_nil, joinS]
+    simp [termCharsN, coefPart, coefText, starPart, varPartN, hz1, hz2]
+  · simp only [hz, Bool.false_eq_true, if_false]
+    rw [intercalate_toListS, hN, String.toList_ofList, List.map_map, List.map_map]
+    show joinS (sepN k l) _ = _
+    congr 1
+    apply List.map_congr_left
+    intro d _
+    simp only [Function.comp]
+    show (_ ++ _ ++ _ : String).toList = _
+    unfold termCharsN starPart coefPart coefText varPartN varN
+    rw [String.toList_append, String.toList_append, List.append_assoc]
+    congr 1
+    · split <;> simp
+    · congr 1
+      · by_cases h1 : (!F.isOne (UPoly.coef F f d) || d == 0) = true
+        · by_cases h2 : N.star = true <;> by_cases h3 : d = 0 <;>
+            by_cases h4 : F.nTerms (UPoly.coef F f d) > 1 <;> simp [h1, h2, h3, h4]
+          all_goals (split <;> rfl)
+        · by_cases h2 : N.star = true <;> by_cases h3 : d = 0 <;> simp [h1, h2, h3]
+      · by_cases h0 : d = 0
+        · simp [h0]
+        · by_cases h1 : d = 1
+          · simp [h1]
+          · have : d > 1 := by omega
+            cases N.caret <;> simp [h0, h1, this]
+
+/-- `UPolyRoundTrip` clause 1 for EVERY notation, over any lawful coefficient record with a
+    `CoefRT` coefficient syntax -/
+theorem upoly_notation_generic {α K : Type} [Field K] {F : FOps α} (L : Lawful F K)
+    (H : CoefRT F L.valid) (hz1 : F.toStr F.zero = "0") (hz2 : ¬ F.nTerms F.zero > 1)
+    (hown : ∀ w, F.ownVar = some w → AdmissibleName w)
+    {v : String} (hv : AdmissibleName v) (hun : ∀ w, F.ownVar = some w → Unconfusable v w)
+    (mod : Option (UPoly α)) {f : UPoly α} (hf : WF L f) (hlen : f.length ≤ 2 ^ 63)
+    (hred : reduceIn { F := F, varName := v, modulus := mod } f = some f)
+    (N : Notation) (hN : N.ok) :
+    UPoly.parse { F := F, varName := v, modulus := mod } (uToStrN N F v f) = .ok (some f) := by
+  obtain ⟨k, l, hsep⟩ := hN
+  obtain ⟨hl, x0', vt', hv'1, hv'2, _⟩ := varN_facts N hv
+  have hdir : UPoly.directOK F v = true := by
+    unfold UPoly.directOK
+    rw [(admissible_iff_simple v).1 hv, Bool.true_and]
+    cases hw : F.ownVar with
+    | none => rfl
+    | some w => exact (admissible_iff_simple w).1 (hown w hw)
+  exact upoly_parse_N L H hdir hl ⟨x0', vt', hv'1, hv'2⟩
+    (fun w X hw => strip_none_of_unconfusable (unconfusable_varN N hv (hun w hw)) X)
+    N.caret N.star k l mod hf hlen hred (uToStrN_toList N hsep F hz1 hz2 v f)
+
+/-- `UPolyRoundTrip` clause 1, every notation, over a prime field -/
+theorem prime_upoly_notation {p : Nat} (hp : p.Prime) (h32 : p - 1 < 2 ^ 32) {v : String}
+    (hv : AdmissibleName v) (mod : Option (UPoly Nat)) {f : UPoly Nat}
+    (hf : UValid (primeSpec p) { F := primeOps p, varName := v, modulus := mod } f)
+    (hlen : f.length ≤ 2 ^ 63) (N : Notation) (hN : N.ok) :
+    ∃ g, UPoly.parse { F := primeOps p, varName := v, modulus := mod }
+        (uToStrN N (primeOps p) v f) = .ok (some g) ∧ UPoly.equal (primeOps p) f g = true := by
+  have := Fact.mk hp
+  obtain ⟨hcanon, hlt, hred⟩ := hf
+  refine ⟨f, ?_, (equal_iff_eq (primeLawfulFact p h32) hlt hlt).2 rfl⟩
+  exact upoly_notation_generic (primeLawfulFact p h32) (prime_coefRT hp.two_le (by omega))
+    (by show toString (0 : Nat) = "0"; decide) (by show ¬ (1 > 1); omega)
+    (fun w hw => by cases hw) hv (fun w hw => by cases hw) mod ⟨hlt, hcanon⟩ hlen hred N hN
+
+/-- … over a binary field -/
+theorem bin_upoly_notation {K : Type} [Field K] {n m : Nat} {w : String}
+    (L : Lawful (binOps n m w) K) (hL : ∀ a, L.valid a ↔ a < 2 ^ n) (hw : AdmissibleName w)
+    (hn : n < 64) {v : String} (hv : AdmissibleName v) (hun : Unconfusable v w)
+    (mod : Option (UPoly Nat)) {f : UPoly Nat}
+    (hf : UValid (binSpec n m w) { F := binOps n m w, varName := v, modulus := mod } f)
+    (hlen : f.length ≤ 2 ^ 63) (N : Notation) (hN : N.ok) :
+    ∃ g, UPoly.parse { F := binOps n m w, varName := v, modulus := mod }
+        (uToStrN N (binOps n m w) v f) = .ok (some g) ∧
+      UPoly.equal (binOps n m w) f g = true := by
+  obtain ⟨hcanon, hval, hred⟩ := hf
+  have hwf : WF L f := ⟨fun c hc => (hL c).2 (hval c hc), hcanon⟩
+  have hown : ∀ w', (binOps n m w).ownVar = some w' → w' = w := by
+    intro w' h; injection h with e; exact e.symm
+  refine ⟨f, ?_, (equal_iff_eq L hwf.1 hwf.1).2 rfl⟩
+  exact upoly_notation_generic L ((bin_coefRT hw m hn).mono fun a ha => (hL a).1 ha) rfl
+    (by show ¬ popCount 0 > 1; rw [ParseRT.popCount_zero]; omega)
+    (fun w' h => by rw [hown w' h]; exact hw) hv (fun w' h => by rw [hown w' h]; exact hun)
+    mod hwf hlen hred N hN
+
+section ExtNot
+variable {p : Nat} [Fact p.Prime] {h32 : p - 1 < 2 ^ 32} {n : Nat} {g : List Nat}
+
+/-- … over an extension field -/
+theorem ext_upoly_notation {K : Type} [Field K] (M : ExtField.Modulus h32 n g) (hn : n ≤ 2 ^ 63)
+    (L : Lawful (extOps p n g) K) (hL : ∀ a, L.valid a ↔ ExtField.Valid h32 n a)
+    {v : String} (hv : AdmissibleName v) (hun : Unconfusable v "a")
+    (mod : Option (UPoly (UPoly Nat))) {f : UPoly (UPoly Nat)}
+    (hf : UValid (extSpec p n g) { F := extOps p n g, varName := v, modulus := mod } f)
+    (hlen : f.length ≤ 2 ^ 63) (N : Notation) (hN : N.ok) :
+    ∃ g', UPoly.parse { F := extOps p n g, varName := v, modulus := mod }
+        (uToStrN N (extOps p n g) v f) = .ok (some g') ∧
+      UPoly.equal (extOps p n g) f g' = true := by
+  obtain ⟨hcanon, hval, hred⟩ := hf
+  have hwf : WF L f :=
+    ⟨fun c hc => (hL c).2 (by have := hval c hc; exact ⟨⟨this.2.2, this.1⟩, this.2.1⟩), hcanon⟩
+  have hown : ∀ w', (extOps p n g).ownVar = some w' → w' = "a" := by
+    intro w' h; injection h with e; exact e.symm
+  refine ⟨f, ?_, (equal_iff_eq L hwf.1 hwf.1).2 rfl⟩
+  exact upoly_notation_generic L ((ext_coefRT M hn).mono fun a ha => (hL a).1 ha)
+    (by show UPoly.toStr (primeOps p) "a" [0] = "0"; rfl)
+    (by show ¬ UPoly.nTerms (primeOps p) [0] > 1; simp [UPoly.nTerms, UPoly.isZero, primeOps])
+    (fun w' h => by rw [hown w' h]; exact ⟨'a', [], by decide, by decide, by decide⟩) hv
+    (fun w' h => by rw [hown w' h]; exact hun) mod hwf hlen hred N hN
+
+end ExtNot
+
+-- non-vacuity: Singular style, `*`, no blanks, lower case: 3*x2+x+5 for 3X^2 + X + 5 in F_7[X]
+example : ∃ g, UPoly.parse { F := primeOps 7, varName := "X", modulus := none } "3*x2+x+5" =
+      .ok (some g) ∧ UPoly.equal (primeOps 7) [5, 1, 3] g = true := by
+  have h := prime_upoly_notation (p := 7) (by norm_num) (by norm_num) (v := "X")
+    ⟨'X', [], by decide, by decide, by decide⟩ none (f := [5, 1, 3])
+    ⟨⟨by simp, fun _ => by decide⟩, fun c hc => by
+        have : c < 7 := by simp at hc; omega
+        exact this, rfl⟩ (by decide)
+    { caret := false, star := true, sep := "+", swapCase := true } ⟨0, 0, by decide⟩
+  have e : uToStrN { caret := false, star := true, sep := "+", swapCase := true } (primeOps 7) "X"
+      [5, 1, 3] = "3*x2+x+5" := by decide +kernel
+  rwa [e] at h
+
+/-! ### 10. the literal `C15_full` is false: the missing bound on the number of coefficients
+
+  `UPolyRoundTrip` of `Props/C15.lean` quantifies over all canonical coefficient slices.  The
+  monomial `X^(2^63)` over `F_7` (a slice of `2^63 + 1` coefficients) prints as
+  `X^9223372036854775808`, and the exponent reader (`strconv.ParseInt(·, 10, 0)`) rejects
+  `9223372036854775808` with a range error: the parser returns a Conversion error.  Hence the
+  statement without `f.length ≤ 2^63` is false in the model.  (In Go such a slice cannot exist —
+  its length exceeds `int` — so this is a defect of the literal statement, not of the library;
+  `UPolyRoundTripB` carries the bound.) -/
+
+theorem getD_monomial (n d : Nat) : (List.replicate n 0 ++ [1]).getD d 0 ≠ 0 ↔ d = n := by
+  rw [List.getD_eq_getElem?_getD, List.getElem?_append]
+  by_cases h1 : d < n
+  · simp [h1, List.getElem?_replicate]; omega
+  · by_cases h2 : d = n
+    · subst h2; simp
+    · have : d - n ≠ 0 := by omega
+      simp [h1]
+      constructor
+      · intro h
+        cases hd : d - n with
+        | zero => omega
+        | succ k => rw [hd] at h; simp at h
+      · intro h; omega
+
+theorem degrees_monomial (p n : Nat) :
+    UPoly.degrees (primeOps p) (List.replicate n 0 ++ [1]) = [n] := by
+  have hall : ∀ d ∈ UPoly.degrees (primeOps p) (List.replicate n 0 ++ [1]), d = n :=
+    fun d hd => (getD_monomial n d).1 ((Strings.mem_degrees p _ d).1 hd)
+  have hmem : n ∈ UPoly.degrees (primeOps p) (List.replicate n 0 ++ [1]) :=
+    (Strings.mem_degrees p _ n).2 ((getD_monomial n n).2 rfl)
+  have hpw := UPoly.degrees_sorted (F := primeOps p) (List.replicate n 0 ++ [1])
+  cases h : UPoly.degrees (primeOps p) (List.replicate n 0 ++ [1]) with
+  | nil => rw [h] at hmem; cases hmem
+  | cons x t =>
+    rw [h] at hall hpw
+    cases t with
+    | nil => rw [hall x (by simp)]
+    | cons y t' =>
+      exfalso
+      have h1 := hall x (by simp)
+      have h2 := hall y (by simp)
+      have := (List.pairwise_cons.1 hpw).1 y (by simp)
+      omega
+
+theorem toStr_monomial (p : Nat) (v : String) {n : Nat} (hn : 2 ≤ n) :
+    UPoly.toStr (primeOps p) v (List.replicate n 0 ++ [1]) = v ++ "^" ++ toString n := by
+  have hz : UPoly.isZero (primeOps p) (List.replicate n 0 ++ [1]) = false := by
+    obtain ⟨k, rfl⟩ : ∃ k, n = k + 1 := ⟨n - 1, by omega⟩
+    simp [List.replicate_succ, UPoly.isZero]
+  have hc : UPoly.coef (primeOps p) (List.replicate n 0 ++ [1]) n = 1 := by
+    show (List.replicate n 0 ++ [1]).getD n 0 = 1
+    rw [List.getD_eq_getElem?_getD, List.getElem?_append]; simp
+  rw [toStr_eq_terms, hz, degrees_monomial]
+  simp only [Bool.false_eq_true, if_false, List.map_cons, List.map_nil, hc]
+  have h0 : ¬ n = 0 := by omega
+  have h1 : ¬ n = 1 := by omega
+  have h2 : n > 1 := by omega
+  simp [termStr, primeOps, h0, h1, h2]
+
+/-- the parser rejects the printed form of `X^n` for every `n ≥ 2^63` -/
+theorem parse_monomial_overflow {n : Nat} (hn : 2 ^ 63 ≤ n) :
+    UPoly.parse { F := primeOps 7, varName := "X", modulus := none }
+      (UPoly.toStr (primeOps 7) "X" (List.replicate n 0 ++ [1])) = .error .conversion := by
+  have H := prime_coefRT (p := 7) (by norm_num) (by norm_num)
+  have hdir : UPoly.directOK (primeOps 7) "X" = true := by decide
+  have h63 : (2 : Nat) ^ 63 = 9223372036854775808 := by norm_num
+  have hpos : n ≠ 0 := by omega
+  have hn1 : ¬ n = 1 := by omega
+  have hn2 : n > 1 := by omega
+  have hterm : (UPoly.toStr (primeOps 7) "X" (List.replicate n 0 ++ [1])).toList =
+      [] ++ (termChars (primeOps 7) "X" 1 n ++ []) := by
+    rw [toStr_monomial 7 "X" (by omega), ← termStr_toList]
+    simp [termStr, primeOps, hpos, hn1, hn2]
+  obtain ⟨full, htok⟩ := tokU_term (F := primeOps 7) (v := "X") (x0 := 'X') (vt := []) H rfl
+    (by decide) (fun w X hw => by cases hw) (pre := []) (Or.inl rfl) (c := 1)
+    (by show (1 : Nat) < 7; norm_num) n (post := []) (Or.inl rfl)
+  have hcoef : coefPart (primeOps 7) 1 n = [] := by
+    unfold coefPart; simp [primeOps, hpos]
+  have hmap : UPoly.stringToMap (primeOps 7) "X"
+      (UPoly.toStr (primeOps 7) "X" (List.replicate n 0 ++ [1])) = .error .conversion := by
+    unfold UPoly.stringToMap
+    rw [if_pos hdir]
+    unfold matchesU
+    rw [hterm]
+    have hne : ([] ++ (termChars (primeOps 7) "X" 1 n ++ [])).isEmpty = false := by
+      obtain ⟨y, t, hT, _⟩ := termChars_head (F := primeOps 7) (v := "X") (x0 := 'X') (vt := []) H
+        rfl (by decide) (c := 1) (by show (1 : Nat) < 7; norm_num) n []
+      rw [List.nil_append, hT]; rfl
+    rw [hne]
+    simp only [Bool.false_eq_true, if_false]
+    have hov : Option.map String.toList (primeOps 7).ownVar = ovOf (primeOps 7) := rfl
+    rw [hov]
+    cases hlen : ([] ++ (termChars (primeOps 7) "X" 1 n ++ [])).length with
+    | zero =>
+      rw [List.isEmpty_eq_false_iff] at hne
+      exact absurd (List.length_eq_zero_iff.1 hlen) hne
+    | succ f =>
+      rw [loopU, hne, htok]
+      simp only [Bool.false_eq_true, if_false, dropWs, List.dropWhile_nil, List.length_nil,
+        if_true]
+      rw [loopU_nil]
+      simp only [Option.map_some]
+      unfold UPoly.stringToMapRx.go
+      have hpi : parseIntDigits n.repr = none := by
+        have : parseIntDigits (toString n) = none := by
+          rw [parseIntDigits_eq, if_pos (isDigits_toString _), toNat!_toString, if_neg (by omega)]
+        exact this
+      have hne2 : n.repr ≠ "" := toString_ne_empty n
+      have hl : UPoly.strLower "X" ≠ "" := by decide
+      have hle : ¬ n ≤ 1 := by omega
+      have hT : 0 < (termChars (primeOps 7) "X" 1 n).length := by
+        have : (termChars (primeOps 7) "X" 1 n).length = f + 1 := by simpa using hlen
+        omega
+      simp [hcoef, hpos, hpi, hne2, hl, hle, hT]
+  unfold UPoly.parse
+  rw [hmap]
+
+/-- `UPolyRoundTrip` as literally stated (no bound on the number of coefficients) fails -/
+theorem upolyRoundTrip_literal_false : ¬ UPolyRoundTrip (primeSpec 7) := by
+  intro h
+  obtain ⟨h1, _⟩ := h "X" none ⟨'X', [], by decide, by decide, by decide⟩ (fun w hw => by cases hw)
+    (fun g hg => by cases hg)
+  have key : ∀ n : Nat, 2 ^ 63 ≤ n → False := by
+    intro n hn
+    have hvalid : UValid (primeSpec 7) { F := primeOps 7, varName := "X", modulus := none }
+        (List.replicate n 0 ++ [1]) := by
+      refine ⟨⟨by simp, fun _ => by simp [primeOps, primeSpec]⟩, ?_, rfl⟩
+      intro c hc
+      show c < 7
+      rcases List.mem_append.1 hc with h | h
+      · rw [(List.mem_replicate.1 h).2]; norm_num
+      · simp at h; omega
+    obtain ⟨g, hg, _⟩ := h1 _ hvalid {} ⟨1, 1, by decide⟩
+    rw [uToStrN_default] at hg
+    have hov := parse_monomial_overflow hn
+    change UPoly.parse { F := primeOps 7, varName := "X", modulus := none }
+      (UPoly.toStr (primeOps 7) "X" (List.replicate n 0 ++ [1])) = .ok (some g) at hg
+    rw [hov] at hg
+    cases hg
+  exact key (2 ^ 63) (Nat.le_refl _)
+
+/-- hence `C15_full` of `Props/C15.lean`, read literally, is false; the provable statement is the
+    bounded one (`UPolyRoundTripB`; assembled in `Props/C15FullDefine.lean`) -/
+theorem C15_full_literal_false : ¬ C15_full := by
+  intro h
+  exact upolyRoundTrip_literal_false (h.1 7 (by decide +kernel)).2.1
+
+/-! ### 11. what remains of `C15_full` -/
 
 /-- `UPolyRoundTrip` of `Props/C15.lean` with the bound on the number of coefficients that the
     exponent reader (`strconv.ParseInt`) imposes: an exponent `≥ 2^63` is a range error, so without
@@ -801,21 +1308,55 @@ def UPolyRoundTripB {α : Type} (S : FieldSpec α) : Prop :=
       ∃ g, UPoly.parse R (UPoly.toStr S.F v f₁ ++ " + " ++ UPoly.toStr S.F v f₂) = .ok (some g) ∧
         UPoly.equal S.F g (UPoly.add S.F f₁ f₂) = true)
 
-/-- NOT PROVED. What is still only validated by the correspondence run.  Proved of the statement
-    below, for all three field families, every ring/quotient ring, every monomial order, every
-    ideal: the instance `N = {}` (the printers' own notation) of the first clauses of
-    `UPolyRoundTripB` and `BPolyRoundTrip` (`prime_/bin_/ext_upoly_roundtrip_beq`,
-    `prime_/bin_/ext_bpoly_roundtrip`), and the second clause (additivity) of `UPolyRoundTripB`
-    (`prime_/bin_/ext_upoly_additive`); corollaries at the fields `Define` returns are in
-    `Props/C15FullDefine.lean`.  Missing: the other notations `N` (`*`, no `^`, blanks around
-    `+`, letter case, `y` before `x`) for univariate and bivariate polynomials, and bivariate
-    additivity (second clause of `BPolyRoundTrip`). -/
+/-- clause 1 of `UPolyRoundTripB`: all notations -/
+def UNotations {α : Type} (S : FieldSpec α) : Prop :=
+  ∀ (v : String) (mod : Option (UPoly α)), AdmissibleName v →
+    (∀ w, S.ownVar = some w → Unconfusable v w) → ModOK S mod →
+    ∀ f, UValid S { F := S.F, varName := v, modulus := mod } f → f.length ≤ 2 ^ 63 →
+      ∀ N : Notation, N.ok →
+      ∃ g, UPoly.parse { F := S.F, varName := v, modulus := mod } (uToStrN N S.F v f) = .ok (some g) ∧
+        UPoly.equal S.F f g = true
+
+/-- clause 1 of `BPolyRoundTrip`: all notations -/
+def BNotations {α : Type} (S : FieldSpec α) : Prop :=
+  ∀ (x y : String) (ord : Order) (ideal : Option (List (BPoly α))),
+    AdmissibleName x → AdmissibleName y → Unconfusable x y →
+    (∀ w, S.ownVar = some w → Unconfusable x w ∧ Unconfusable y w) →
+    ∀ f, BValid S { F := S.F, ord := ord, varNames := (x, y), ideal := ideal } f →
+      ∀ N : Notation, N.ok →
+      ∃ g, BPoly.parse { F := S.F, ord := ord, varNames := (x, y), ideal := ideal }
+          (bToStrN N { F := S.F, ord := ord, varNames := (x, y), ideal := ideal } f) = .ok (some g) ∧
+        BPoly.equal S.F f g = true
+
+/-- clause 2 of `BPolyRoundTrip` in a quotient ring -/
+def BAddQuot {α : Type} (S : FieldSpec α) : Prop :=
+  ∀ (x y : String) (ord : Order) (gs : List (BPoly α)),
+    AdmissibleName x → AdmissibleName y → Unconfusable x y →
+    (∀ w, S.ownVar = some w → Unconfusable x w ∧ Unconfusable y w) →
+    ∀ f₁ f₂, BValid S { F := S.F, ord := ord, varNames := (x, y), ideal := some gs } f₁ →
+      BValid S { F := S.F, ord := ord, varNames := (x, y), ideal := some gs } f₂ →
+      ∃ g, BPoly.parse { F := S.F, ord := ord, varNames := (x, y), ideal := some gs }
+          (BPoly.toStr { F := S.F, ord := ord, varNames := (x, y), ideal := some gs } f₁ ++ " + " ++
+            BPoly.toStr { F := S.F, ord := ord, varNames := (x, y), ideal := some gs } f₂) =
+              .ok (some g) ∧
+        BPoly.equal S.F g (BPoly.add S.F f₁ f₂) = true
+
+/-- NOT PROVED. What is still only validated by the correspondence run.  Everything else of
+    `C15_full` (with the bounds of `UPolyRoundTripB`) is proved for all three field families:
+    element round trips; `UNotations` (clause 1 of `UPolyRoundTripB` for EVERY notation:
+    `prime_/bin_/ext_upoly_notation`); clause 1 of `BPolyRoundTrip` for `N = {}` (every order,
+    ideal); univariate additivity; bivariate additivity without ideal.  Remaining:
+    * `BNotations` for `N ≠ {}` (`*`, no `^`, blanks around `+`, letter case, `y` before `x`);
+    * `BAddQuot`: bivariate additivity in a quotient ring is proved only under the extra hypothesis
+      `hsum` of `*_bpoly_additive` (the model's reduction returns something `Equal` to
+      `add f₁ f₂` when applied to it); deriving `hsum` from `BValid f₁`, `BValid f₂` needs an
+      analysis of `quoRemLoop` on inputs without divisible exponent pairs, an admissible order, and
+      a bound `f₁.length + f₂.length < BPoly.divFuel` for the model's division fuel. -/
 def C15Full_remaining : Prop :=
-  (∀ p, Define.prime p = .ok (.prime p) →
-    UPolyRoundTripB (primeSpec p) ∧ BPolyRoundTrip (primeSpec p)) ∧
+  (∀ p, Define.prime p = .ok (.prime p) → BNotations (primeSpec p) ∧ BAddQuot (primeSpec p)) ∧
   (∀ q n m v, Define.bin Gen.dbText q = .ok (.bin n m) → AdmissibleName v →
-    UPolyRoundTripB (binSpec n m v) ∧ BPolyRoundTrip (binSpec n m v)) ∧
+    BNotations (binSpec n m v) ∧ BAddQuot (binSpec n m v)) ∧
   (∀ q p n g, Define.ext Gen.dbText q = .ok (.ext p n g) →
-    UPolyRoundTripB (extSpec p n g) ∧ BPolyRoundTrip (extSpec p n g))
+    BNotations (extSpec p n g) ∧ BAddQuot (extSpec p n g))
 
 end Algobra.C15
